@@ -892,9 +892,10 @@ impl<S: VhostUserBackendReqHandler> BackendReqHandler<S> {
         // If Bit 8 is unset, the data must contain a file descriptor.
         let has_fd = (msg.value & 0x100u64) == 0;
 
+        let has_files = matches!(&files, Some(files) if !files.is_empty());
         let file = take_single_file(files);
 
-        if has_fd && file.is_none() || !has_fd && file.is_some() {
+        if has_fd && file.is_none() || !has_fd && has_files {
             return Err(Error::InvalidMessage);
         }
 
